@@ -50,6 +50,9 @@ def run(tier, seed):
     r = vlib.tlc_model_check("MC_Api.tla", "MC_Api.cfg", workers=2)
     v.add_mc("MC_Api", r, "outcome algebra / entry-point equations")
     bases = [s for s in svgen.sentences(rng, 30 if quick else 300, budget=7)]
+    # one sentence per alternative of the grammar (every construct form): Display / Debug / Locate::try_from on EVERY node
+    import c02
+    sweep_texts = [c02.build_case("x", st, b, ch)["text"] for (st, b, ch, note) in c02.class_sweep(rng) if note.endswith("/0") or not quick]
     cor = corpus.parser_corpus()
     rng.shuffle(cor)
     bases += [x["text"] for x in cor[: (30 if quick else 300)] if len(x["text"]) < 1200]
@@ -92,9 +95,11 @@ def run(tier, seed):
     if quick:
         dtexts = rng.sample(dtexts, 700)
     texts += dtexts
+    nfault = len(texts)
+    texts += sweep_texts
     hcases = []
     for i, t in enumerate(texts):
-        k = i % 6
+        k = i % 6 if i < nfault else 0
         if k == 0:
             calls = [{"fn": "parse_sv_str", "path": "t.sv", "text": t, "fmt": True, "probe_nodes": 3}]
         elif k == 1:
@@ -125,7 +130,13 @@ def run(tier, seed):
             oc = rr.get("outcome")
             key = oc if oc != "err" else "err:" + rr["err"]["kind"]
             hist[key] = hist.get(key, 0) + 1
-            recs.append({"id": "%s.%d" % (h["id"], ci), "kind": "typed", "outcome": str(oc), "msg": str(rr.get("msg", rr.get("rc", "")))[:200]})
+            msg = str(rr.get("msg", rr.get("rc", "")))[:200]
+            # Locate::try_from is called on every node while the tree is dumped; a panic there is caught per node and
+            # recorded as [-1,-1,-1] - for this property it is a panic of an entry point like any other
+            tl = (rr.get("tree") or {}).get("try_loc") or []
+            if oc == "ok" and any(x == [-1, -1, -1] for x in tl):
+                oc, msg = "panic", "Locate::try_from panicked on node %d of the returned tree" % (1 + tl.index([-1, -1, -1]))
+            recs.append({"id": "%s.%d" % (h["id"], ci), "kind": "typed", "outcome": str(oc), "msg": msg})
     bad, stats = vlib.tlc_validate("Api_Trace.tla", "Api_Trace.cfg", recs, tag="c08")
     v.add_tv("Api_Trace[typed]", stats, len(recs))
     byid = {str(h["id"]): h for h in hcases}
